@@ -74,8 +74,40 @@ func matchSeg(s Seg, tok string) (Tri, string) {
 			return Yes, tok[:len(tok)-len(s.Suf)]
 		}
 		return No, ""
+	case VarPre:
+		// whether a router matches prefix{v} at all is unspecified; if it does, the value is the text behind the prefix
+		if len(tok) > len(s.Lit) && strings.HasPrefix(tok, s.Lit) {
+			v := tok[len(s.Lit):]
+			if s.PreRe && !Regexes[s.Re].full.MatchString(v) {
+				return No, ""
+			}
+			return Unspec, v
+		}
+		return No, ""
 	}
 	return Unspec, ""
+}
+
+// MatchFullLoose is MatchFull with every prefix{v} segment that COULD match counted as matching: the reference
+// bindings for a route function that did run on such a template.
+func MatchFullLoose(full Tmpl, tokens []string) (Tri, map[string]string) {
+	tri, binds := MatchFull(full, tokens)
+	if tri != Unspec {
+		return tri, binds
+	}
+	limit := len(full)
+	if limit > 0 && full[limit-1].Kind == Wild {
+		limit--
+		if len(tokens) <= limit {
+			return Unspec, binds
+		}
+	}
+	for i := 0; i < limit; i++ {
+		if t, _ := matchSeg(full[i], tokens[i]); t == Unspec && full[i].Kind != VarPre {
+			return Unspec, binds
+		}
+	}
+	return Yes, binds
 }
 
 func combine(a, b Tri) Tri {
